@@ -6,6 +6,7 @@ import (
 	"os"
 	"runtime"
 	"sort"
+	"strings"
 	"time"
 
 	"verif/engine/explore"
@@ -19,6 +20,9 @@ type E1Spec struct {
 	Budget   time.Duration
 	Assume   []string
 	Extra    map[string]any
+	Relabel  map[string]string // violations of these properties found by the scenario's shared oracles count for Prop
+	// RelabelOnly restricts relabelling of a property to signatures with one of these prefixes.
+	RelabelOnly map[string][]string
 }
 
 func workers() int {
@@ -69,16 +73,32 @@ func RunE1(spec E1Spec) int {
 		fmt.Printf("%s family %-22s depth %d/%d states %d transitions %d exhaustive=%v crashes=%d %.1fs\n", spec.Prop, fam.Name, st.DepthDone, fam.Depth, st.States, st.Transitions, st.Exhaustive, st.Crashes, st.WallS)
 		// Group violations by signature, keep the shortest witness of each.
 		best := map[string]explore.Violation{}
+		label := map[string][2]string{} // key -> (prop, clause) to report under
 		for _, v := range st.Violations {
 			if v.Prop == "ENGINE" {
 				engineErr = fam.Name + ": " + v.Msg
 				continue
 			}
-			if v.Prop != spec.Prop {
+			prop, clause := v.Prop, v.Clause
+			relabelOK := true
+			if only, ok := spec.RelabelOnly[v.Prop]; ok {
+				relabelOK = false
+				for _, pre := range only {
+					if strings.HasPrefix(v.Sig, pre) {
+						relabelOK = true
+					}
+				}
+			}
+			if to, ok := spec.Relabel[v.Prop]; ok && to == spec.Prop && relabelOK {
+				clause = "via-" + v.Prop + "-" + v.Clause
+				prop = spec.Prop
+			}
+			if prop != spec.Prop {
 				otherProps[v.Prop]++
 				continue
 			}
-			k := v.Clause + "/" + v.Sig
+			k := prop + "|" + clause + "/" + v.Sig
+			label[k] = [2]string{prop, clause}
 			if b, ok := best[k]; !ok || len(v.Path) < len(b.Path) {
 				best[k] = v
 			}
@@ -98,7 +118,7 @@ func RunE1(spec E1Spec) int {
 				}
 				v = explore.Minimise(pool, fam, v, spec.Prop)
 			}
-			c.Add(report.V{Prop: v.Prop, Clause: v.Clause, Sig: v.Sig, Msg: v.Msg, Replay: map[string]any{"engine": "E1", "scenario": fam.Scenario, "family": fam.Name, "params": fam.Params, "events": v.Path}})
+			c.Add(report.V{Prop: label[k][0], Clause: label[k][1], Sig: v.Sig, Msg: v.Msg, Replay: map[string]any{"engine": "E1", "scenario": fam.Scenario, "family": fam.Name, "params": fam.Params, "events": v.Path}})
 		}
 	}
 	if len(samples) == 0 {
